@@ -19,7 +19,10 @@ type cancelProg struct {
 	Full     string // complete output of a finite program
 	Own      string // own outcome class of a finite program
 	TreeOK   bool   // also run on the interpreter (no spawn)
+	TreeOnly bool   // only on the interpreter (host features the VM has no counterpart for)
 	Sync     bool   // also run through VM.SpawnSync (the host call that waits itself)
+	Kill     string // interpreter only: this function is registered as the host's kill handler
+	KillOut  string // what the handler prints (the output of a terminated run ends with it)
 }
 
 var c10Progs = []cancelProg{
@@ -141,6 +144,40 @@ fn main() {
 fn main() {
     let i = 0;
     loop { i += 1; println(i); }
+}
+`},
+	// a kill handler registered by the host (the scope addition `@event_kill`): it runs once after the
+	// termination, the run still ends with the termination
+	{Name: "host-kill-handler-that-prints", Infinite: true, TreeOnly: true, Kill: "on_kill", KillOut: "cleanup\n", Source: `fn on_kill() {
+    println("cleanup");
+}
+fn main() {
+    let i = 0;
+    loop { i += 1; println(i); }
+}
+`},
+	{Name: "host-kill-handler-with-a-loop-and-a-call", Infinite: true, TreeOnly: true, Kill: "on_kill", KillOut: "c 0\nc 1\nc 2\ndone 3\n", Source: `fn note(n: int) -> int {
+    println("c", n);
+    n + 1
+}
+fn on_kill() {
+    let k = 0;
+    while k < 3 { k = note(k); }
+    println("done", k);
+}
+fn main() {
+    let i = 0;
+    while true {
+        try { i += 1; println(i); throw("x"); } catch e { }
+    }
+}
+`},
+	{Name: "host-kill-handler-while-main-sleeps", Infinite: true, TreeOnly: true, Kill: "on_kill", KillOut: "cleanup\n", Source: `fn on_kill() {
+    println("cleanup");
+}
+fn main() {
+    let i = 0;
+    loop { i += 1; println(i); time.sleep(0.02); }
 }
 `},
 	{Name: "spawned-finishes-main-loops", Infinite: true, Source: `fn main() {
@@ -286,6 +323,9 @@ func init() {
 	register("C10", func() *Check {
 		var cases []schedCase
 		for _, p := range c10Progs {
+			if p.TreeOnly {
+				continue
+			}
 			cases = append(cases, schedCase{
 				Name: p.Name, Source: p.Source, Body: c10Body, Judge: c10Judge(p),
 				Bound:      map[string]int{"quick": 2, "thorough": 3},
@@ -306,7 +346,7 @@ func init() {
 				Count: func(tier string) int {
 					n := 0
 					for _, p := range c10Progs {
-						if p.TreeOK {
+						if p.TreeOK || p.TreeOnly {
 							n++
 						}
 					}
@@ -324,7 +364,7 @@ func c10Tree(tier string, idx int, r *Result) {
 	var p cancelProg
 	n := 0
 	for _, q := range c10Progs {
-		if q.TreeOK {
+		if q.TreeOK || q.TreeOnly {
 			if n == idx {
 				p = q
 			}
@@ -356,6 +396,7 @@ func c10Tree(tier string, idx int, r *Result) {
 		opts.PollBudget = 100000
 		rc := &rec{}
 		_ = rc
+		opts.TreeKillFn = p.Kill
 		o := RunTree(a, opts)
 		r.Trans(o.Polls)
 		r.Distinct(p.Name + "|" + o.Class + "|" + fmt.Sprint(o.Polls-k))
@@ -372,6 +413,10 @@ func c10Tree(tier string, idx int, r *Result) {
 		}
 		if !p.Infinite && o.Class != "terminated" && o.Class != p.Own {
 			r.Fail("WAIT:outcome "+o.Class+" is neither termination nor the program's own outcome", []string{"backend:tree"}, cas, o.String())
+			return
+		}
+		if p.Kill != "" && o.Class == "terminated" && !strings.HasSuffix(o.Out, p.KillOut) {
+			r.Fail("KILL-HANDLER:the host's kill handler did not run to its end after the termination", []string{"backend:tree"}, cas, o.String())
 			return
 		}
 		if o.Class == "terminated" && o.Polls-k > 3 {
